@@ -26,7 +26,7 @@ from . import gpgshim, proto  # noqa: E402
 
 gpgshim.install()   # before root_signing is imported: its SSLIB_AVAILABLE flag is computed at import time
 
-from conda_content_trust import authentication, common, root_signing, signing  # noqa: E402
+from conda_content_trust import authentication, common, metadata_construction, root_signing, signing  # noqa: E402
 
 assert root_signing.SSLIB_AVAILABLE, "GPG shim not picked up by root_signing"
 
@@ -179,8 +179,17 @@ def _run(op: str, a: list) -> str:
         return "V " + proto.enc(a[0])
     if op == "signrepofile":
         fn = os.path.join(scratch_dir(), "repodata.json")
+        from . import gen as _gen, jsontext as _jt
+        if isinstance(a[0], bytes):
+            text = a[0]
+        elif len(a) > 2 and a[2] is not None:
+            # the same document in another layout (member order as given, random whitespace / escapes): the result must not depend on it
+            import random as _random
+            text = _jt.rand_text(_random.Random(a[2]), a[0]).encode("utf-8", "surrogatepass")
+        else:
+            text = _gen.oracle_bytes(a[0])
         with open(fn, "wb") as f:
-            f.write(common.canonserialize(a[0]) if not isinstance(a[0], bytes) else a[0])
+            f.write(text)
         try:
             signing.sign_all_in_repodata(fn, a[1])
         except Exception as e:  # noqa: BLE001
@@ -246,6 +255,8 @@ def enc_case(op: str, args: list) -> str:
         return "parse " + bytes(args[0]).hex()
     if op == "key":
         return f"key {args[0]} " + " ".join(proto.enc(x) for x in args[1:])
+    if op == "signrepofile":
+        return " ".join([op] + [proto.enc(x) for x in args[:2]])      # args[2] (layout of the input file) is not part of the value
     if op == "build":
         which, a, b, params = args
         # the library reads the clock once per defaulted field, in call order; the model takes one reading per purpose
